@@ -14,6 +14,7 @@ Counters gc;
 Rt g;
 PgExec E1{1, 0}, E2{2, 0}, I3{3, 1}, S4{4, 2};
 PendingSlots gp;
+SharedSlots gs;
 Out gout;
 long alloc_mark = 0;
 
@@ -76,6 +77,9 @@ void ResetState() {
   }
   gp.n = 0;
   gp.done = 0;
+  gs.made[0] = gs.made[1] = 0;
+  gs.sf[0] = {};
+  gs.sf[1] = {};
   gout = Out{};
 }
 
@@ -85,9 +89,9 @@ void PrintRun(int id, const char* mode, long k, long live0, long bad0, long bal0
   char b[256];
   std::snprintf(b, sizeof b,
                 "{\"id\":%d,\"mode\":\"%s\",\"k\":%ld,\"final\":[%d,%d],\"ready\":%d,\"finished\":%d,\"allocs\":%ld,"
-                "\"live\":%ld,\"bad\":%ld,\"balance\":%ld,\"submits\":%ld,\"rejected\":%ld,\"log\":[",
+                "\"live\":%ld,\"bad\":%ld,\"balance\":%ld,\"submits\":%ld,\"rejected\":%ld,\"shared_bad\":%d,\"log\":[",
                 id, mode, k, gout.final_state, gout.final_code, gout.ready, gout.finished, gout.allocs, gc.live - live0,
-                gc.bad - bad0, (gc.news - gc.deletes) - bal0, g.submit_seq, g.rejected);
+                gc.bad - bad0, (gc.news - gc.deletes) - bal0, g.submit_seq, g.rejected, gout.shared_bad);
   s += b;
   for (int i = 0; i < g.nlog; ++i) {
     std::snprintf(b, sizeof b, "%s[%d,%d,%d,%d,%d]", i == 0 ? "" : ",", g.log[i].step, g.log[i].tag, g.log[i].started,
